@@ -20,7 +20,9 @@ from .. import symeval as S
 from ..algebra import Undecided
 from ..model import AnalysisError, norm_text
 
-NUMPY_OK = {"log", "power", "full", "array", "sqrt", "exp", "abs", "zeros", "pi", "nan", "log10", "arctan", "fabs"}
+NUMPY_OK = {"log", "power", "full", "array", "sqrt", "exp", "abs", "zeros", "pi", "nan", "log10", "arctan", "fabs", "log1p", "sin", "cos", "tan",
+            "tanh", "sinh", "cosh", "arctan2", "where", "maximum", "minimum", "sign", "floor", "ceil", "isnan", "isfinite", "ones", "empty",
+            "linspace", "sum", "dot", "log2", "expm1", "square", "cbrt", "absolute", "float64", "int64", "complex128", "real", "imag"}
 BUILTIN_OK = {"range", "enumerate", "complex", "ValueError", "abs", "int", "float", "len", "min", "max"}
 
 
@@ -217,6 +219,7 @@ def check_closed_and_frozen(rep, proj):
     for f in kernels:
         locals_ = flow.local_stores(f.node)
         problems = []
+        unknown = []
         for n in flow.function_body_nodes(f.node, include_nested=True):
             if isinstance(n, (ast.FunctionDef, ast.Lambda, ast.ClassDef)):
                 problems.append(f"nested {type(n).__name__} inside an njit kernel")
@@ -250,7 +253,10 @@ def check_closed_and_frozen(rep, proj):
                         d = S._canon_ext(r[1])
                         if d.startswith("numpy.") and d.split(".", 1)[1] in NUMPY_OK:
                             continue
-                        problems.append(f"call of {d}, not in the numba-supported whitelist")
+                        if d.startswith("numpy.") or d.startswith("math."):
+                            unknown.append(f"call of {d}: not in the checker's list of numba-supported functions")
+                            continue
+                        problems.append(f"call of {d}: numba cannot compile calls into this library in nopython mode")
                         continue
                     problems.append(f"call of unresolved attribute {ast.unparse(fn)}")
                 else:
@@ -277,6 +283,8 @@ def check_closed_and_frozen(rep, proj):
                 problems.append(f"free name '{n.id}' is {k}")
         if problems:
             rep.bad("C18.closed", f.site, f.fq, "; ".join(sorted(set(problems))[:3]))
+        elif unknown:
+            rep.undecided("C18.closed", f.site, f.fq, "; ".join(sorted(set(unknown))[:2]))
         else:
             rep.ok("C18.closed", f.site, f.fq, "all callees njit/whitelisted, all free names module constants")
     # frozen: no function writes a module-level name that a kernel captured
